@@ -205,18 +205,79 @@ func (c *Controller) Step(name string, wait, settle time.Duration) (string, stri
 	if err != nil {
 		return "", "", err
 	}
-	deadline := time.Now().Add(settle)
+	_ = settle
+	return from, c.WaitSettled(name, 5*time.Second), nil
+}
+
+// goroutineState returns the scheduler state of goroutine id as printed by runtime.Stack ("running", "runnable",
+// "semacquire", "sync.Mutex.Lock", "sync.Cond.Wait", "sync.WaitGroup.Wait", "select", "chan receive", "IO wait" ...).
+func goroutineState(id int64) string {
+	buf := make([]byte, 1<<20)
+	n := runtime.Stack(buf, true)
+	pat := []byte(fmt.Sprintf("goroutine %d [", id))
+	i := bytes.Index(buf[:n], pat)
+	if i < 0 {
+		return "gone"
+	}
+	rest := buf[i+len(pat) : n]
+	j := bytes.IndexAny(rest, "],")
+	if j < 0 {
+		return "?"
+	}
+	return string(rest[:j])
+}
+
+func (c *Controller) goidOf(name string) int64 {
+	c.mu.Lock()
+	defer c.mu.Unlock()
+	for id, n := range c.names {
+		if n == name {
+			return id
+		}
+	}
+	return -1
+}
+
+func blockingState(st string) bool {
+	switch st {
+	case "semacquire", "sync.Mutex.Lock", "sync.RWMutex.Lock", "sync.Cond.Wait", "sync.WaitGroup.Wait", "select", "chan receive", "chan send", "IO wait", "sleep":
+		return true
+	}
+	return false
+}
+
+// WaitSettled waits until the thread is parked at a point (returned), has finished ("done") or is blocked
+// inside the library ("blocked": its goroutine is waiting on a lock, a condition, a channel or the network).
+// It does not guess from elapsed time: the goroutine's scheduler state is read from runtime.Stack.
+func (c *Controller) WaitSettled(name string, max time.Duration) string {
+	deadline := time.Now().Add(max)
+	seen := 0
 	for {
 		if p := c.ParkedAt(name); p != "" {
-			return from, p, nil
+			return p
 		}
 		if c.IsDone(name) {
-			return from, "done", nil
+			return "done"
+		}
+		id := c.goidOf(name)
+		if id >= 0 {
+			if blockingState(goroutineState(id)) {
+				// make sure it is not the hook's own channel receive in the instant before ParkedAt is set
+				if p := c.ParkedAt(name); p != "" {
+					return p
+				}
+				seen++
+				if seen >= 3 {
+					return "blocked"
+				}
+			} else {
+				seen = 0
+			}
 		}
 		if time.Now().After(deadline) {
-			return from, "blocked", nil
+			return "blocked"
 		}
-		time.Sleep(200 * time.Microsecond)
+		time.Sleep(300 * time.Microsecond)
 	}
 }
 
